@@ -61,13 +61,15 @@ class Monitor(object):
         for nd in Q.transitive_nodes:
             nid = nd.id_number
             opt = self.opts.get(nid)
-            if not opt or oracles.node_kind(self.cfg["nodes"][nid - 1]) != "fixed":
+            if not opt or oracles.node_kind(self.cfg["nodes"][nid - 1]) not in ("fixed", "sched"):
                 continue
             held = {id(s.cust): s for s in nd.servers if s.cust}
             waiting = [i for i in nd.all_individuals if id(i) not in held]
-            if waiting and held:
+            # (scheduled nodes: customers finishing on overtime servers are not candidates for a pre-emption)
+            on_duty = [s for s in nd.servers if s.cust and not s.offduty]
+            if waiting and on_duty:
                 best_waiting = min(i.priority_class for i in waiting)
-                worst_served = max(s.cust.priority_class for s in nd.servers if s.cust)
+                worst_served = max(s.cust.priority_class for s in on_duty)
                 if best_waiting < worst_served:
                     self.violate("priority_inversion", {"node": nid, "now": now,
                                                          "waiting": [[i.id_number, i.priority_class] for i in waiting],
@@ -193,6 +195,11 @@ def focused(tier):
         out.append(cfg("%s cct raises priority" % opt, fam, [node(c=1, preempt=opt)],
                        {"A": klass([[0.5, 1.0]], [[3.0, 2.0]], prio=1, cct={"B": [0.5, 1.5]}), "B": klass([[1.0, 2.0]], [[0.5, 1.0]], prio=0)},
                        K=2, T=24.0, features=["preempt_prio", "cct", opt]))
+        # a timed class change that LOWERS the priority, pending when the customer is started by a shift change
+        out.append(cfg("%s cct lowers priority, started by a shift change" % opt, fam,
+                       [node(c={"sched": {"numbers": [0, 1], "ends": [2.0, 14.0], "preempt": False}}, preempt=opt)],
+                       {"A": klass([{"values": [0.5, 1.0], "budget": 2}], [[6.0, 4.0]], prio=0, cct={"B": [3.0, 2.0]}), "B": klass([None], [[6.0, 4.0]], prio=1)},
+                       K=2, T=24.0, features=["preempt_prio", "cct", "schedule", opt]))
     out += ties_and_disciplines(tier)
     for c in (1, 2):
         out.append(cfg("reroute c=%d" % c, fam, [node(c=c, preempt="reroute"), node(c=1)],
